@@ -84,6 +84,8 @@ def run(res, tier):
     from msa import reach as R
     R.rec_rule(res, fx, cg, entries, reach, 'R-REC', anchor_files=ANCHOR_FILES, side_nesting=True)
     R.crash_rule(res, fx, cg, entries, reach, 'R-CRASH', taint_entry=False)
+    # lengths that reach a helper from client-controlled filters and payloads: the helper cannot rely on their relation
+    common.param_underflow_rule(res, fx, 'R-CRASH', floor=1, only_reach=set(reach))
     from . import sm_state
     from . import srs_shared as SS
     SS.ancestor_deref_rule(res, fx, 'R-CRASH')
